@@ -195,6 +195,7 @@ static void mon_quiescent(const char *after)
   }
   mon_earliest_deadline_us = -1;
   if (!mon_enable_idx && !mon_enable_fd) {
+    mon_net_waits_fwd(after); /* the wait bounds (and the per-transmission record of them) do not depend on those */
     return;
   }
   sim_note("quiescent_points");
